@@ -5,11 +5,18 @@ from fractions import Fraction
 import numpy as np
 import scipy.sparse as sps
 
-from harness.core import Prop, cz, cnat, cbool, clist
+from harness.core import Prop, cbool, clist
 
 import porepy as pp
 
 KW = "transport"
+
+
+def cz(n):
+    """Z literal for case files that open Z_scope (scope delimiters on every number make
+    coqc several times slower on these large terms)."""
+    n = int(n)
+    return str(n) if n >= 0 else f"({n})"
 
 # bc codes per face
 NONE, DIR, NEU, ROB, BOTH = 0, 1, 2, 3, 4
@@ -142,8 +149,8 @@ class C17(Prop):
     id = "C17"
     props_file = "Props/C17.v"
     preamble = ("From Coq Require Import List ZArith Bool.\nImport ListNotations.\n"
-                "From PP Require Import Model.C17.\n")
-    n_cases = (150, 2500)
+                "From PP Require Import Model.C17.\nLocal Open Scope Z_scope.\n")
+    n_cases = (100, 2000)
     design_ref = "DESIGN.md §5 C17"
     level_text = (
         "Coq theorems over an executable face-by-face transcription of Upwind.discretize "
@@ -354,20 +361,20 @@ class C17(Prop):
     # ------------------------------------------------------------------ tie
     def _input(self, case, res):
         code = case["bc"]
-        trip = lambda t: f"({cnat(t[0])}, {cnat(t[1])}, {cz(t[2])})"
+        trip = lambda t: f"({cz(t[0])}, {cz(t[1])}, {cz(t[2])})"
         return ("(mk_input {} {} {} {} {} {} {} {})".format(
-            cnat(res["dim"]), cnat(res["nf"]), cnat(res["nc"]), clist(res["cf"], trip),
+            cz(res["dim"]), cz(res["nf"]), cz(res["nc"]), clist(res["cf"], trip),
             clist(case["flux"], cz),
             clist([c in (DIR, BOTH) for c in code], cbool),
             clist([c in (NEU, BOTH) for c in code], cbool),
-            cnat(case["ncomp"])))
+            cz(case["ncomp"])))
 
     def coq_case(self, case, res):
-        trip = lambda t: f"({cnat(t[0])}, {cnat(t[1])}, {cz(t[2])})"
+        trip = lambda t: f"({cz(t[0])}, {cz(t[1])}, {cz(t[2])})"
         if res["err"]:
             exp = "None"
         else:
-            m = lambda x: f"({clist(x['e'], trip)}, ({cnat(x['shape'][0])}, {cnat(x['shape'][1])}))"
+            m = lambda x: f"({clist(x['e'], trip)}, ({cz(x['shape'][0])}, {cz(x['shape'][1])}))"
             exp = f"(Some ({m(res['U'])}, {m(res['D'])}, {m(res['N'])}))"
         return f"agree {self._input(case, res)} {exp}"
 
